@@ -117,6 +117,33 @@ class EventSelectionMethod(
             self._src_arr = self.sources_to_array(
                 sources=self._shg_mgr.source_list)
 
+    @staticmethod
+    def create_src_evt_mask(src_evt_idxs, n_sources, n_events):
+        """Creates the boolean mask of the given source and event index pairs.
+
+        Parameters
+        ----------
+        src_evt_idxs : 2-tuple of 1d ndarrays of ints
+            The 2-element tuple holding the two 1d ndarrays of int of length
+            N_values, specifying to which sources the given events belong to.
+        n_sources : int
+            The number of sources.
+        n_events : int
+            The number of events.
+
+        Returns
+        -------
+        mask : instance of numpy ndarray
+            The (N_sources,N_events)-shaped numpy ndarray of bool, which is
+            ``True`` for the given source and event index pairs.
+        """
+        (src_idxs, evt_idxs) = src_evt_idxs
+
+        mask = np.zeros((n_sources, n_events), dtype=bool)
+        mask[src_idxs, evt_idxs] = True
+
+        return mask
+
     def sources_to_array(self, sources):
         """This method is supposed to convert a sequence of SourceModel
         instances into a structured numpy ndarray with the source information
@@ -559,6 +586,10 @@ class DecBandEventSectionMethod(
                 (events['dec'] > src_dec_minus[:, np.newaxis]) &
                 (events['dec'] < src_dec_plus[:, np.newaxis])
             )
+            # Consider only the given source and event combinations.
+            if src_evt_idxs is not None:
+                mask_dec &= self.create_src_evt_mask(
+                    src_evt_idxs, len(src_arr), len(events))
 
         # Determine the mask for the events that fall inside at least one
         # source declination band.
@@ -703,6 +734,10 @@ class RABandEventSectionMethod(
         # mask_ra is a (N_sources,N_events)-shaped ndarray.
         with TaskTimer(tl, 'ESM-RaBand: Calculate mask_ra.'):
             mask_ra = ra_dist < dRA_half[:, np.newaxis]
+            # Consider only the given source and event combinations.
+            if src_evt_idxs is not None:
+                mask_ra &= self.create_src_evt_mask(
+                    src_evt_idxs, len(src_arr), len(events))
 
         # Determine the mask for the events that fall inside at least one
         # source sky window.
@@ -882,6 +917,10 @@ class SpatialBoxEventSelectionMethod(
             mask_sky = mask_ra & mask_dec
             del mask_ra
             del mask_dec
+            # Consider only the given source and event combinations.
+            if src_evt_idxs is not None:
+                mask_sky &= self.create_src_evt_mask(
+                    src_evt_idxs, n_sources, len(events))
 
         # Determine the mask for the events that fall inside at least one
         # source sky window.
@@ -1062,7 +1101,12 @@ class PsiFuncEventSelectionMethod(
             func_args = [events[axis] for axis in self._axis_name_list]
 
         with TaskTimer(tl, f'{cls_name}: Creating mask.'):
-            mask = psi < self._func(*func_args)
+            mask_sky = np.atleast_2d(psi < self._func(*func_args))
+            # Consider only the given source and event combinations.
+            if src_evt_idxs is not None:
+                mask_sky = mask_sky & self.create_src_evt_mask(
+                    src_evt_idxs, 1, len(events))
+            mask = np.any(mask_sky, axis=0)
 
         with TaskTimer(tl, f'{cls_name}: Create selected_events.'):
             # Using an integer indices array for data selection is several
@@ -1072,7 +1116,7 @@ class PsiFuncEventSelectionMethod(
 
         # Get selected events indices.
         # The event indices must point into the selected events.
-        idxs = np.argwhere(np.atleast_2d(mask)[:, mask])
+        idxs = np.argwhere(mask_sky[:, mask])
         src_idxs = idxs[:, 0]
         evt_idxs = idxs[:, 1]
 
